@@ -171,7 +171,7 @@ def check_push_outcome(res, ws, root, rr, first, goal_count, cfg_sig, argv, chec
         res.viol(dict(cfg_sig, **{"class": "applied-patches"}), "applied-patches %r, expected %r; stderr: %s" % (got_applied, want_applied, rr.err.decode("utf-8", "replace")[-500:]), root + ".orig", argv,
                  extra={"workspace": ws.describe()})
         return None
-    diffs = runner.tree_diff(obs["tree"], obs["dirs"], exp_tree, check_dirs=check_rej_dirs, rej_paths=list(obs["rej"]))
+    diffs = runner.tree_diff(obs["tree"], obs["dirs"], exp_tree, check_dirs=check_rej_dirs, rej_paths=list(obs["rej"]) + [d + "/." for d in getattr(ws, "extra_dirs", ())])
     if diffs:
         cls, path, detail = diffs[0]
         res.viol(dict(cfg_sig, **{"class": "tree-differs", "diff": cls}),
